@@ -13,6 +13,7 @@
 From Coq Require Import String Lia.
 From PlzV Require Import Base.Harness Gen.AspTables Model.C16_Syntax Model.C16_Ops Model.C16_Prim Model.C16_Eval.
 Local Open Scope list_scope.
+Local Open Scope nat_scope.
 
 Inductive mode := Free | Prot | Dead.
 
@@ -46,6 +47,9 @@ Lemma nth_list_set_cases : forall {A} (l : list A) i j x d,
 Proof.
   induction l as [|y r IH]; intros [|i] [|j] x d; cbn; auto.
 Qed.
+
+Lemma nth_list_set_P : forall {A} (P : A -> Prop) (l : list A) i j x d, P x -> P (nth j l d) -> P (nth j (list_set i x l) d).
+Proof. intros A P l i j x d Hx Hl. destruct (nth_list_set_cases l i j x d) as [-> | ->]; auto. Qed.
 
 Lemma Forall_list_set : forall {A} (Q : A -> Prop) (l : list A) i x, Forall Q l -> Q x -> Forall Q (list_set i x l).
 Proof.
@@ -137,8 +141,36 @@ with sok_i (i : opitem) : bool :=
   | OUn _ => true
   end.
 
+
+(* unfolding equations (cbn does not refold the mutual fixpoint) *)
+Lemma sok_e_Ex : forall v ops iff, sok_e (Ex v ops iff) =
+  sok_v v && forallb sok_i ops && add_prec_ok ops && match iff with None => true | Some (c, e2) => sok_e c && sok_e e2 end.
+Proof. reflexivity. Qed.
+Lemma sok_v_list : forall es, sok_v (XList es) = forallb sok_e es.
+Proof. reflexivity. Qed.
+Lemma sok_v_comp : forall e n it cond, sok_v (XComp e n it cond) = sok_e e && sok_e it && match cond with None => true | Some c => sok_e c end.
+Proof. reflexivity. Qed.
+Lemma sok_v_dict : forall kvs, sok_v (XDict kvs) = forallb (fun kv => let '(k, v) := kv in sok_e k && sok_e v) kvs.
+Proof. reflexivity. Qed.
+Lemma sok_v_paren : forall e, sok_v (XParen e) = sok_e e.
+Proof. reflexivity. Qed.
+Lemma sok_v_meth : forall b m args, sok_v (XMeth b m args) = sok_v b && forallb sok_e args.
+Proof. reflexivity. Qed.
+Lemma sok_v_index : forall b i, sok_v (XIndex b i) = sok_v b && sok_e i.
+Proof. reflexivity. Qed.
+Lemma sok_v_slice : forall b lo hi, sok_v (XSlice b lo hi) =
+  sok_v b && match lo with None => true | Some e => sok_e e end && match hi with None => true | Some e => sok_e e end.
+Proof. reflexivity. Qed.
+Lemma sok_v_const : forall k, sok_v (XConst k) = vokb (nth k cs VNone).
+Proof. reflexivity. Qed.
+Lemma sok_i_bin : forall o v, sok_i (OBin o v) = sok_v v && (if is_add o then safe_addend v else true).
+Proof. reflexivity. Qed.
+
 Definition addend_e (e : expr) : bool := match e with Ex x [] None => safe_addend x | _ => false end.
 Definition sok_args (args : list (option str * expr)) : bool := forallb (fun a => let '(_, e) := a in sok_e e) args.
+
+Lemma sok_v_call : forall n args, sok_v (XCall n args) = sok_args args.
+Proof. reflexivity. Qed.
 
 Fixpoint sok_s (s0 : stmt) : bool :=
   match s0 with
@@ -158,6 +190,15 @@ Fixpoint sok_s (s0 : stmt) : bool :=
   | SPass | SBreak | SContinue => true
   end.
 Definition sok_p (p : list stmt) : bool := forallb sok_s p.
+
+Lemma sok_s_if : forall c body elifs els, sok_s (SIf c body elifs els) =
+  sok_e c && sok_p body && forallb (fun cb => let '(c1, b1) := cb in sok_e c1 && sok_p b1) elifs && sok_p els.
+Proof. reflexivity. Qed.
+Lemma sok_s_for : forall n it body, sok_s (SFor n it body) = sok_e it && sok_p body.
+Proof. reflexivity. Qed.
+Lemma sok_s_def : forall n args body, sok_s (SDef n args body) =
+  forallb (fun na => match snd na with None => true | Some e => sok_e e end) args && sok_p body.
+Proof. reflexivity. Qed.
 
 Definition dok (a : str * fdefault) : bool :=
   match snd a with DNo => true | DConst v => vokb v | DExpr e => sok_e e end.
@@ -183,7 +224,7 @@ Record frame (st st' : state) : Prop := mkFrame {
   f_arr : forall a, ca a <> Free -> arr_of st' a = arr_of st a;
   f_dict : forall i, cd i <> Free -> dict_of st' i = dict_of st i;
   f_fs : forall j, ls j = false -> nth j (fscopes st') [] = nth j (fscopes st) [];
-  f_fslen : length (fscopes st') = length (fscopes st);
+  f_fslen : length (fscopes st) <= length (fscopes st');
   f_fn : exists X, funcs st' = funcs st ++ X;
   f_sub : subcache st' = subcache st;
   f_alen : length (arrays st) <= length (arrays st');
@@ -225,7 +266,7 @@ Proof.
 Qed.
 
 Lemma good_weaken : forall {A} (R R' : A -> Prop) st r, post (good st R) r -> (forall a, R a -> R' a) -> post (good st R') r.
-Proof. intros A R R' st r H HR. eapply post_weaken; [exact H|]. intros a st' (I & F & Ha). repeat split; auto. Qed.
+Proof. intros A R R' st r H HR. eapply post_weaken; [exact H|]. intros a st' (I & F & Ha). split; [exact I|]. split; [exact F|]. apply HR, Ha. Qed.
 
 (* ---------------------------------------------------------------- environments *)
 Lemma env_get_ok : forall e n v, env_ok e -> env_get n e = Some v -> vok v.
@@ -250,18 +291,19 @@ Qed.
 Lemma lookup_ok : forall st n v, Inv st -> lookup n st = Some v -> vok v.
 Proof.
   intros st n v HI H. unfold lookup in H.
-  destruct (envs_get n (locals st)) eqn:E1; [injection H as <-; eapply envs_get_ok; eauto using i_loc|].
+  destruct (envs_get n (locals st)) eqn:E1; [injection H as <-; eapply envs_get_ok; [apply (i_loc _ HI)|exact E1]|].
   destruct (env_get n (nth (cur st) (fscopes st) [])) eqn:E2.
   - injection H as <-. eapply env_get_ok; [|exact E2]. apply i_fs; auto. apply i_cur; auto.
-  - destruct (existsb (str_eqb n) builtin_names); [injection H as <-; reflexivity|discriminate].
+  - destruct (existsb (str_eqb n) builtin_names); [|discriminate]. injection H as Hq. subst v. reflexivity.
 Qed.
 
 Lemma nth_list_set_same_or : forall {A} (l : list A) i x d, nth i (list_set i x l) d = x \/ (length l <= i /\ list_set i x l = l).
 Proof.
-  induction l as [|y r IH]; intros [|i] x d; cbn; auto.
-  - right. split; [lia|auto].
-  - right. split; [lia|auto].
-  - destruct (IH i x d) as [H|[H1 H2]]; auto. right. split; [lia|]. now rewrite H2.
+  induction l as [|y r IH]; intros i x d.
+  - right. destruct i; cbn; split; auto; lia.
+  - destruct i as [|i]; cbn.
+    + left. reflexivity.
+    + destruct (IH i x d) as [H|[H1 H2]]; [left; exact H|]. right. split; [lia|]. now rewrite H2.
 Qed.
 
 Lemma set_var_good : forall st n v, Inv st -> vok v -> Inv (set_var n v st) /\ frame st (set_var n v st).
@@ -274,10 +316,9 @@ Proof.
            ++ rewrite H. apply env_set_ok; auto.
            ++ rewrite H. auto.
         -- rewrite nth_list_set_other by auto. auto.
-      * now rewrite EL.
     + constructor; cbn [arrays dicts funcs fscopes cur locals consts subcache set_fscopes]; auto.
-      * intros j Hj. rewrite nth_list_set_other; auto. intros ->. rewrite (i_cur _ HI) in Hj. discriminate.
-      * apply length_list_set.
+      * intros j Hj. rewrite nth_list_set_other; auto. intros E. rewrite <- E in Hj. rewrite (i_cur _ HI) in Hj. discriminate.
+      * rewrite length_list_set. lia.
       * exists []. now rewrite app_nil_r.
   - split.
     + destruct HI. constructor; cbn [arrays dicts funcs fscopes cur locals consts subcache set_locals]; auto.
@@ -358,7 +399,7 @@ Qed.
 Lemma new_list_good : forall items st, Inv st -> Forall vok items -> post (good st vok) (Ok (new_list items st)).
 Proof.
   intros items st HI Hit. unfold new_list. pose proof (alloc_list_good items (length items) st HI Hit) as H.
-  destruct (alloc_list items (length items) st) as [r st']. cbn. tauto.
+  destruct (alloc_list items (length items) st) as [r st']. destruct H as (H1 & H2 & H3 & _). cbn. unfold good. auto.
 Qed.
 
 Lemma alloc_dict_good : forall kvs st, Inv st -> env_ok kvs ->
@@ -393,18 +434,21 @@ Proof.
     + rewrite length_list_set. lia.
 Qed.
 
+Lemma dict_of_store : forall x st b, dict_of (set_dicts x st) b = nth b x [].
+Proof. reflexivity. Qed.
+
 Lemma dict_store_good : forall i k v st, Inv st -> cd i = Free -> vok v ->
   Inv (dict_store i k v st) /\ frame st (dict_store i k v st).
 Proof.
   intros i k v st HI Hi Hv. unfold dict_store. split.
   - destruct HI. constructor; cbn [arrays dicts funcs fscopes cur locals consts subcache set_dicts]; auto.
     + intros b Hb. rewrite length_list_set. auto.
-    + intros b Hb. unfold dict_of at 1. cbn [dicts set_dicts].
-      destruct (nth_list_set_cases (dicts st) i b (env_set k v (dict_of st i)) []) as [-> | ->].
+    + intros b Hb. rewrite dict_of_store.
+      apply (nth_list_set_P env_ok).
       * apply env_set_ok; auto. apply i_dict0. rewrite Hi. discriminate.
       * apply i_dict0; auto.
   - constructor; cbn [arrays dicts funcs fscopes cur locals consts subcache set_dicts]; auto.
-    + intros b Hb. unfold dict_of at 1. cbn [dicts set_dicts]. apply nth_list_set_other. intros ->. contradiction.
+    + intros b Hb. rewrite dict_of_store. apply nth_list_set_other. intros ->. contradiction.
     + exists []. now rewrite app_nil_r.
     + rewrite length_list_set. lia.
 Qed.
